@@ -17,6 +17,8 @@ def run(chk):
     n = 10 if chk.tier == "quick" else 120
     tmpls = gen_many(chk, toks, n, 25 if chk.tier == "quick" else 40, PROFILE)
     run_templates(chk, tmpls, toks, PREFIXES, kinds=["bare-mem", "bare-disk", "tree"], git_every_step=(chk.tier == "thorough"))
+    meta = gen_many(chk, toks, 6 if chk.tier == "quick" else 80, 22, "meta")
+    run_templates(chk, meta, toks, PREFIXES, kinds=["bare-mem", "bare-disk", "tree"], label="store-meta")
     run_http_templates(chk, toks, 4 if chk.tier == "quick" else 50, 20, "git", PREFIXES, git_checks=True)
 
 
